@@ -265,11 +265,16 @@ pub fn judge_walk(ctx: &mut Ctx, exp: &Walk, obs: &Observed, descr: &dyn Fn() ->
 }
 
 fn run_one(ctx: &mut Ctx, web: Web, start_url: &str, max: u32, follow: bool, label: &str) {
+    run_one_m(ctx, web, start_url, max, follow, label, "GET")
+}
+
+fn run_one_m(ctx: &mut Ctx, web: Web, start_url: &str, max: u32, follow: bool, label: &str, method: &str) {
     let start = urlref::split(start_url);
     let exp = simulate(&web, &start, max, follow);
     let web = Arc::new(web);
     let world = serve(web.clone());
-    let mut prepared = attohttpc::get(start_url).max_redirections(max).follow_redirects(follow).prepare();
+    // (whether a redirect is followed does not depend on the request method)
+    let mut prepared = attohttpc::RequestBuilder::new(attohttpc::Method::from_bytes(method.as_bytes()).unwrap(), start_url).max_redirections(max).follow_redirects(follow).prepare();
     let res = prepared.send();
     let obs = observe(&world, res);
     // the same prepared request sent again starts from the same URL with a fresh budget
@@ -283,7 +288,7 @@ fn run_one(ctx: &mut Ctx, web: Web, start_url: &str, max: u32, follow: bool, lab
     let descr = || {
         let mut t: Vec<String> = web.table.iter().map(|(k, n)| format!("{}://{}:{}{} -> {} {:?}", k.0, k.1, k.2, k.3, n.status, n.locations.iter().map(|l| show(l)).collect::<Vec<_>>())).collect();
         t.sort();
-        format!("[{label}] start={start_url} max={max} follow={follow} table={t:?}")
+        format!("[{label}] {method} start={start_url} max={max} follow={follow} table={t:?}")
     };
     judge_walk(ctx, &exp, &obs, &descr);
     if !matches!(exp.outcome, Outcome::Gray(_)) {
@@ -356,7 +361,9 @@ fn run_chains(ctx: &mut Ctx, _rng: &mut Rng, index: u64) {
         web.table.insert(("http".into(), "a.test".into(), 80, format!("/hop{i}")), Node { status: statuses[(i % 5) as usize], locations: vec![format!("/hop{}", i + 1).into_bytes()] });
     }
     web.table.insert(("http".into(), "a.test".into(), 80, format!("/hop{len}")), Node { status: 200, locations: vec![] });
-    run_one(ctx, web, "http://a.test/hop0", max, follow, "chains");
+    let method = ["GET", "POST", "PATCH", "PUT", "DELETE", "PURGE"][((index / 2) % 6) as usize];
+    ctx.set_add("chain_methods", method.to_owned());
+    run_one_m(ctx, web, "http://a.test/hop0", max, follow, "chains", method);
 }
 
 const LOCATION_TEMPLATES: &[&str] = &[
